@@ -419,7 +419,7 @@ impl Format for Mpq {
         let mut names: Vec<String> = NAMES.iter().map(|s| s.to_string()).collect();
         names.extend(["patched.bin", "(listfile)", "(attributes)", "(signature)", "Absent\\nope.bin"].iter().map(|s| s.to_string()));
         if let Some(mut a) = rec.call("Archive::open", || Archive::open(&path)) {
-            let _ = rec.call("Archive::get_info", || a.get_info());
+            let _ = rec.leaf("Archive::get_info", || a.get_info());
             let mut listed: Vec<wow_mpq::archive::FileEntry> = vec![];
             if let Some(l) = rec.call("Archive::list", || a.list()) {
                 for e in l.iter().take(40) {
@@ -431,31 +431,31 @@ impl Format for Mpq {
             if let Some(l) = rec.call("Archive::list_all", || a.list_all()) {
                 listed = l;
             }
-            let _ = rec.call("Archive::list_with_hashes", || a.list_with_hashes());
-            let _ = rec.call("Archive::list_all_with_hashes", || a.list_all_with_hashes());
+            let _ = rec.leaf("Archive::list_with_hashes", || a.list_with_hashes());
+            let _ = rec.leaf("Archive::list_all_with_hashes", || a.list_all_with_hashes());
             for n in &names {
-                let _ = rec.call("Archive::find_file", || a.find_file(n));
-                if let Some(d) = rec.call("Archive::read_file", || a.read_file(n)) {
+                let _ = rec.leaf("Archive::find_file", || a.find_file(n));
+                if let Some(d) = rec.leaf("Archive::read_file", || a.read_file(n)) {
                     rec.note("mpq_files_read_ok", 1);
                     rec.note("mpq_bytes_read", d.len() as u64);
                 }
             }
-            for e in listed.iter().take(12) {
+            for e in listed.iter().take(8) {
                 if let Some((hi, bi)) = e.table_indices {
-                    let _ = rec.call("Archive::read_file_by_indices", || a.read_file_by_indices(hi, bi));
+                    let _ = rec.leaf("Archive::read_file_by_indices", || a.read_file_by_indices(hi, bi));
                 }
             }
             let _ = rec.call("Archive::load_attributes", || a.load_attributes());
-            rec.call_plain("Archive::get_file_attributes", || {
+            rec.leaf_plain("Archive::get_file_attributes", || {
                 for i in 0..8 {
                     let _ = a.get_file_attributes(i);
                 }
             });
-            let _ = rec.call("Archive::verify_signature", || a.verify_signature());
+            let _ = rec.leaf("Archive::verify_signature", || a.verify_signature());
         }
         // tables loaded on demand
         if let Some(mut a) = rec.call("OpenOptions::open[load_tables=false]", || wow_mpq::OpenOptions::new().load_tables(false).open(&path)) {
-            let _ = rec.call("Archive::load_tables", || a.load_tables());
+            let _ = rec.leaf("Archive::load_tables", || a.load_tables());
         }
         // patch chain: base archive (where the seed has one) below the case archive
         {
@@ -466,19 +466,19 @@ impl Format for Mpq {
                 let _ = rec.call("PatchChain::add_archive[base]", || chain.add_archive(&bpath, 0));
             }
             if rec.call("PatchChain::add_archive", || chain.add_archive(&path, 100)).is_some() {
-                let _ = rec.call("PatchChain::list", || chain.list());
+                let _ = rec.leaf("PatchChain::list", || chain.list());
                 for n in names.iter().take(5) {
-                    let _ = rec.call("PatchChain::read_file", || chain.read_file(n));
+                    let _ = rec.leaf("PatchChain::read_file", || chain.read_file(n));
                 }
             }
         }
         // the modification API parses the archive on open as well
         if let Some(mut m) = rec.call("MutableArchive::open", || MutableArchive::open(&path)) {
-            let _ = rec.call("MutableArchive::list", || m.list());
+            let _ = rec.leaf("MutableArchive::list", || m.list());
             for n in names.iter().take(2) {
-                let _ = rec.call("MutableArchive::read_file", || m.read_file(n));
+                let _ = rec.leaf("MutableArchive::read_file", || m.read_file(n));
             }
-            rec.call_plain("MutableArchive::drop", || drop(m));
+            rec.leaf_plain("MutableArchive::drop", || drop(m));
         }
         let _ = std::fs::remove_file(&path);
     }
@@ -511,14 +511,14 @@ impl Format for Ptch {
     fn run(&self, seed: &Seed, input: &[u8], rec: &mut Recorder, _scratch: &Path) {
         let base = &seed.extra[0];
         if let Some(p) = rec.call("PatchFile::parse", || PatchFile::parse(input)) {
-            let _ = rec.call("PatchFile::verify_base", || p.verify_base(base));
+            let _ = rec.leaf("PatchFile::verify_base", || p.verify_base(base));
             if let Some(out) = rec.call("patch::apply_patch", || apply_patch(&p, base)) {
-                let _ = rec.call("PatchFile::verify_patched", || p.verify_patched(&out));
+                let _ = rec.leaf("PatchFile::verify_patched", || p.verify_patched(&out));
             }
             // a patch whose recorded base digest is made to match: the transform itself is then reached
             let mut q = p.clone();
             q.header.md5_before = md5(base);
-            let _ = rec.call("patch::apply_patch[base digest matches]", || apply_patch(&q, base));
+            let _ = rec.leaf("patch::apply_patch[base digest matches]", || apply_patch(&q, base));
         }
     }
 }
@@ -572,12 +572,12 @@ impl Format for Codec {
     }
     fn run(&self, seed: &Seed, input: &[u8], rec: &mut Recorder, _scratch: &Path) {
         if input.is_empty() {
-            let _ = rec.call("compression::decompress[expected = seed size]", || wow_mpq::decompress(input, 0x02, seed.aux as usize));
+            let _ = rec.leaf("compression::decompress[expected = seed size]", || wow_mpq::decompress(input, 0x02, seed.aux as usize));
             return;
         }
         let (m, body) = (input[0], &input[1..]);
-        let _ = rec.call("compression::decompress[expected = seed size]", || wow_mpq::decompress(body, m, seed.aux as usize));
-        let _ = rec.call("compression::decompress[expected = 2^31-1]", || wow_mpq::decompress(body, m, 0x7FFF_FFFF));
-        let _ = rec.call("compression::decompress[expected = 0]", || wow_mpq::decompress(body, m, 0));
+        let _ = rec.leaf("compression::decompress[expected = seed size]", || wow_mpq::decompress(body, m, seed.aux as usize));
+        let _ = rec.leaf("compression::decompress[expected = 2^31-1]", || wow_mpq::decompress(body, m, 0x7FFF_FFFF));
+        let _ = rec.leaf("compression::decompress[expected = 0]", || wow_mpq::decompress(body, m, 0));
     }
 }
